@@ -64,12 +64,12 @@ def run_mutant(m, scratch):
     return m, "MISSED", out[-400:]
 
 
-def main(tier="quick", only=None, jobs=4):
+def main(tier="quick", only=None, jobs=4, summary=None, tag="selftest"):
     muts = json.load(open(os.path.join(VERIF, "selftest", "mutants.json")))
     if only:
         muts = [m for m in muts if m["prop"] in only or m["id"] in only]
     base = os.environ.get("TMPDIR", "/tmp")
-    roots = [os.path.join(base, "gsa-selftest-%d" % i) for i in range(jobs)]
+    roots = [os.path.join(base, "gsa-%s-%d" % (tag, i)) for i in range(jobs)]
     t0 = time.time()
     for r in roots:
         make_scratch(r)
@@ -102,6 +102,11 @@ def main(tier="quick", only=None, jobs=4):
         len(results), sum(1 for r in results if r[1] == "silent-ok"), sum(1 for r in results if r[1] == "caught"),
         sum(1 for r in results if r[1] == "caught-other"),
         sum(1 for r in results if r[1] == "skipped"), bad, time.time() - t0))
+    if summary is not None:
+        summary.update({"variants": len(results), "caught": sum(1 for r in results if r[1] in ("caught", "caught-other")),
+                        "silent_ok": sum(1 for r in results if r[1] == "silent-ok"),
+                        "skipped": [r[0]["id"] for r in results if r[1] == "skipped"],
+                        "failed": [(r[0]["id"], r[1]) for r in results if r[1] in ("MISSED", "broken", "FALSE-ALARM")]})
     return 1 if bad else 0
 
 
